@@ -1,6 +1,575 @@
-//! C03 — stub (monitor not built yet).
-use crate::core::Ctx;
+//! C03 — resource sets behave as exact, canonical sets.
+//!
+//! Oracle: `crate::model::IntervalSet` for the denotation, an independent
+//! canonical-form predicate for the representation, applied to every set the
+//! public API hands back. Hook H1 additionally checks every chain created
+//! inside the library during the workload.
+
+use crate::c03_gen::{canonical_defect, sequence, small_sequence, small_sequence_count, Flavour, Seq};
+use crate::core::{Ctx, Rng, Stage, Tier};
+use crate::der;
+use crate::model::IntervalSet;
+use bcder::decode::IntoSource;
+use bcder::encode::Values;
+use bcder::Mode;
+use rpki::repository::cert::Overclaim;
+use rpki::repository::resources::{AsBlock, AsBlocks, AsBlocksBuilder, AsResources, Asn};
+use serde_json::{json, Value};
+use std::str::FromStr;
+
+pub type Obs = Vec<(u128, u128, bool)>;
+
+pub fn blocks_json(b: &[(u128, u128)]) -> Value {
+    Value::Array(b.iter().map(|(a, c)| json!([a.to_string(), c.to_string()])).collect())
+}
+
+pub fn obs_json(b: &Obs) -> Value {
+    Value::Array(b.iter().map(|(a, c, r)| json!([a.to_string(), c.to_string(), if *r { "range" } else { "single/prefix" }])).collect())
+}
+
+/// Checks an observed set against canonical form and the model.
+/// Returns true if fine.
+pub fn check_set(ctx: &mut Ctx, fl: Flavour, op: &str, obs: &Obs, model: &IntervalSet, detail: impl FnOnce() -> Value) -> bool {
+    ctx.eval();
+    if let Some(defect) = canonical_defect(obs, fl != Flavour::As) {
+        ctx.violation(
+            &format!("C03:{}:{}:non-canonical:{}", fl.name(), op, defect),
+            &format!("{} returned a set that is not in canonical form ({})", op, defect),
+            json!({"observed": obs_json(obs), "expected_set": blocks_json(&model.iv), "case": detail()}),
+        );
+        return false;
+    }
+    let den = IntervalSet::from_ranges(&obs.iter().map(|(a, b, _)| (*a, *b)).collect::<Vec<_>>());
+    if &den != model {
+        ctx.violation(
+            &format!("C03:{}:{}:wrong-set", fl.name(), op),
+            &format!("{} returned a set that differs from the mathematical result", op),
+            json!({"observed": obs_json(obs), "expected_set": blocks_json(&model.iv), "case": detail()}),
+        );
+        return false;
+    }
+    true
+}
+
+pub fn check_bool(ctx: &mut Ctx, fl: Flavour, op: &str, got: bool, want: bool, detail: impl FnOnce() -> Value) {
+    ctx.eval();
+    if got != want {
+        ctx.violation(
+            &format!("C03:{}:{}:wrong-answer", fl.name(), op),
+            &format!("{} answered {} but the mathematical answer is {}", op, got, want),
+            detail(),
+        );
+    }
+}
+
+//------------ AS ------------------------------------------------------------
+
+fn asn(v: u128) -> Asn {
+    Asn::from_u32(v as u32)
+}
+
+fn as_block(lo: u128, hi: u128, rng: &mut Rng) -> AsBlock {
+    if lo == hi && rng.bool() {
+        AsBlock::Id(asn(lo))
+    } else {
+        AsBlock::from((asn(lo), asn(hi)))
+    }
+}
+
+pub fn observe_as(set: &AsBlocks) -> Obs {
+    set.iter()
+        .map(|b| (b.min().into_u32() as u128, b.max().into_u32() as u128, matches!(b, AsBlock::Range(_))))
+        .collect()
+}
+
+/// Text in the library's own syntax, written by the harness.
+fn as_text(blocks: &[(u128, u128)], rng: &mut Rng) -> String {
+    let mut parts = Vec::new();
+    for (lo, hi) in blocks {
+        let pfx = *rng.pick(&["AS", "as", "", "As"]);
+        if lo == hi && rng.bool() {
+            parts.push(format!("{}{}", pfx, lo));
+        } else {
+            parts.push(format!("{}{}-{}{}", pfx, lo, pfx, hi));
+        }
+    }
+    let sep = *rng.pick(&[", ", ",", " , "]);
+    parts.join(sep)
+}
+
+/// SEQUENCE OF ASIdOrRange written by the independent encoder.
+fn as_der(blocks: &[(u128, u128)], single_as_range: bool) -> Vec<u8> {
+    let mut items = Vec::new();
+    for (lo, hi) in blocks {
+        if lo == hi && !single_as_range {
+            items.push(der::uint(*lo));
+        } else {
+            items.push(der::seq(&[&der::uint(*lo), &der::uint(*hi)]));
+        }
+    }
+    der::seq_of(&items)
+}
+
+/// Reads a SEQUENCE OF ASIdOrRange back with the independent reader.
+fn as_der_read(data: &[u8]) -> Option<Vec<(u128, u128)>> {
+    let root = der::parse(data)?;
+    let mut out = Vec::new();
+    let int = |n: &der::Node| -> Option<u128> {
+        let c = n.content(data);
+        if n.tag != der::T_INTEGER || c.is_empty() || c.len() > 5 {
+            return None;
+        }
+        let mut v: u128 = 0;
+        for b in c {
+            v = (v << 8) | *b as u128;
+        }
+        Some(v)
+    };
+    for c in &root.children {
+        if c.tag == der::T_INTEGER {
+            let v = int(c)?;
+            out.push((v, v));
+        } else if c.tag == der::T_SEQUENCE && c.children.len() == 2 {
+            out.push((int(&c.children[0])?, int(&c.children[1])?));
+        } else {
+            return None;
+        }
+    }
+    Some(out)
+}
+
+fn is_canonical_input(fl: Flavour, blocks: &[(u128, u128)]) -> bool {
+    let v: Obs = blocks.iter().map(|(a, b)| { let (x, y) = fl.embed(*a, *b); (x, y, false) }).collect();
+    canonical_defect(&v, false).is_none()
+}
+
+struct AsCase {
+    set: AsBlocks,
+    model: IntervalSet,
+    blocks: Vec<(u128, u128)>,
+}
+
+fn as_construct(ctx: &mut Ctx, rng: &mut Rng, seq: &Seq) -> Option<AsCase> {
+    let fl = Flavour::As;
+    let model = fl.model(&seq.blocks);
+    let how = rng.below(5);
+    let blocks = seq.blocks.clone();
+    let detail = |how: &str| json!({"constructor": how, "blocks": blocks_json(&blocks)});
+    let set = match how {
+        0 | 1 => {
+            let items: Vec<AsBlock> = blocks.iter().map(|(a, b)| as_block(*a, *b, rng)).collect();
+            let s = ctx.no_panic("as:from_iter", || detail("from_iter"), || AsBlocks::from_iter(items))?;
+            ctx.sig(&format!("as from_iter {}", seq.shape));
+            if !check_set(ctx, fl, "from_iter", &observe_as(&s), &model, || detail("from_iter")) { return None; }
+            s
+        }
+        2 => {
+            let mut b = AsBlocksBuilder::new();
+            for (lo, hi) in &blocks {
+                b.push(as_block(*lo, *hi, rng));
+            }
+            let s = ctx.no_panic("as:builder", || detail("builder"), || b.finalize())?;
+            ctx.sig(&format!("as builder {}", seq.shape));
+            if !check_set(ctx, fl, "builder", &observe_as(&s), &model, || detail("builder")) { return None; }
+            s
+        }
+        3 => {
+            let text = as_text(&blocks, rng);
+            let canonical = is_canonical_input(fl, &blocks);
+            let r = ctx.no_panic("as:from_str", || json!({"text": text}), || AsBlocks::from_str(&text))?;
+            ctx.sig(&format!("as from_str {}", seq.shape));
+            match r {
+                Ok(s) => {
+                    if !check_set(ctx, fl, "from_str", &observe_as(&s), &model, || json!({"text": text})) { return None; }
+                    s
+                }
+                Err(e) => {
+                    ctx.eval();
+                    if canonical {
+                        ctx.violation("C03:as:from_str:rejects-canonical-text", "a canonical AS block list in the library's own syntax was rejected", json!({"text": text, "error": e.to_string()}));
+                    } else {
+                        ctx.obs("as_text_noncanonical_rejected", 1);
+                    }
+                    return None;
+                }
+            }
+        }
+        _ => {
+            let single_as_range = rng.chance(1, 4);
+            let data = as_der(&blocks, single_as_range);
+            let canonical = is_canonical_input(fl, &blocks) && !single_as_range;
+            let wrap = rng.bool();
+            let r = if wrap {
+                // ASIdentifiers ::= SEQUENCE { asnum [0] EXPLICIT SEQUENCE OF }
+                let full = der::seq(&[&der::tlv(der::ctx(0), &data)]);
+                ctx.no_panic("as:der-resources", || json!({"der": crate::core::hex(&full)}), || {
+                    Mode::Der.decode(full.as_slice().into_source(), AsResources::take_from).map(|r| r.to_blocks().unwrap_or_default())
+                })?
+            } else {
+                ctx.no_panic("as:der-blocks", || json!({"der": crate::core::hex(&data)}), || {
+                    Mode::Der.decode(data.as_slice().into_source(), AsBlocks::take_from)
+                })?
+            };
+            ctx.sig(&format!("as der wrap={} {}", wrap, seq.shape));
+            match r {
+                Ok(s) => {
+                    if !check_set(ctx, fl, "der-decode", &observe_as(&s), &model, || json!({"der": crate::core::hex(&data), "blocks": blocks_json(&blocks)})) { return None; }
+                    s
+                }
+                Err(e) => {
+                    ctx.eval();
+                    if canonical && !blocks.is_empty() {
+                        ctx.violation("C03:as:der-decode:rejects-canonical", "a canonical RFC 3779 AS block encoding was rejected", json!({"der": crate::core::hex(&data), "error": e.to_string()}));
+                    } else {
+                        ctx.obs("as_der_noncanonical_rejected", 1);
+                    }
+                    return None;
+                }
+            }
+        }
+    };
+    ctx.drain_chain_hook(|| json!({"flavour": "as", "blocks": blocks_json(&blocks)}));
+    Some(AsCase { set, model, blocks })
+}
+
+/// Reversed ranges offered through text and DER: only "error or canonical".
+fn as_reversed(ctx: &mut Ctx, rng: &mut Rng) {
+    let fl = Flavour::As;
+    let seq = sequence(fl, rng, 4);
+    let mut blocks = seq.blocks.clone();
+    let a = fl.endpoint(rng);
+    let b = fl.endpoint(rng);
+    if a == b {
+        return;
+    }
+    let pos = rng.usize_below(blocks.len() + 1);
+    blocks.insert(pos, (a.max(b), a.min(b)));
+    let text = as_text(&blocks, rng);
+    ctx.sig("as reversed-range text");
+    if let Some(r) = ctx.no_panic("as:from_str-reversed", || json!({"text": text}), || AsBlocks::from_str(&text)) {
+        ctx.eval();
+        match r {
+            Ok(s) => {
+                let obs = observe_as(&s);
+                if let Some(d) = canonical_defect(&obs, false) {
+                    ctx.violation(&format!("C03:as:from_str-reversed-range:non-canonical:{}", d), "text with a range whose lower bound is above its upper bound was accepted and stored non-canonically", json!({"text": text, "observed": obs_json(&obs)}));
+                }
+                // counting must not panic where the count is representable
+                let m = IntervalSet::from_ranges(&obs.iter().map(|(a, b, _)| (*a, *b)).collect::<Vec<_>>());
+                if m.count().map(|n| n <= u32::MAX as u128).unwrap_or(false) {
+                    ctx.no_panic("as:asn_count-after-reversed-text", || json!({"text": text}), || s.asn_count());
+                }
+                ctx.obs("as_reversed_text_accepted", 1);
+            }
+            Err(_) => ctx.obs("as_reversed_text_rejected", 1),
+        }
+    }
+    let data = as_der(&blocks, false);
+    ctx.sig("as reversed-range der");
+    if let Some(r) = ctx.no_panic("as:der-reversed", || json!({"der": crate::core::hex(&data)}), || Mode::Der.decode(data.as_slice().into_source(), AsBlocks::take_from)) {
+        ctx.eval();
+        match r {
+            Ok(s) => {
+                let obs = observe_as(&s);
+                if let Some(d) = canonical_defect(&obs, false) {
+                    ctx.violation(&format!("C03:as:der-reversed-range:non-canonical:{}", d), "an RFC 3779 AS range with min above max was accepted and stored non-canonically", json!({"der": crate::core::hex(&data), "observed": obs_json(&obs)}));
+                }
+                let m = IntervalSet::from_ranges(&obs.iter().map(|(a, b, _)| (*a, *b)).collect::<Vec<_>>());
+                if m.count().map(|n| n <= u32::MAX as u128).unwrap_or(false) {
+                    ctx.no_panic("as:asn_count-after-reversed-der", || json!({"der": crate::core::hex(&data)}), || s.asn_count());
+                }
+                ctx.obs("as_reversed_der_accepted", 1);
+            }
+            Err(_) => ctx.obs("as_reversed_der_rejected", 1),
+        }
+    }
+    ctx.drain_chain_hook(|| json!({"flavour": "as", "reversed-input": blocks_json(&blocks)}));
+}
+
+fn relation(a: &IntervalSet, b: &IntervalSet) -> &'static str {
+    if a.is_empty() && b.is_empty() {
+        "both-empty"
+    } else if a.is_empty() || b.is_empty() {
+        "one-empty"
+    } else if a == b {
+        "equal"
+    } else if b.is_subset_of(a) {
+        "b-in-a"
+    } else if a.is_subset_of(b) {
+        "a-in-b"
+    } else if a.intersection(b).is_empty() {
+        // adjacent?
+        if a.union(b).iv.len() < a.iv.len() + b.iv.len() {
+            "disjoint-adjacent"
+        } else {
+            "disjoint"
+        }
+    } else {
+        "overlap"
+    }
+}
+
+fn size_class(a: &IntervalSet) -> &'static str {
+    match a.iv.len() {
+        0 => "empty",
+        1 => "single",
+        _ => "multi",
+    }
+}
+
+fn sample_points(a: &IntervalSet, b: &IntervalSet, max: u128) -> Vec<u128> {
+    let mut pts = vec![0, 1, max, max - 1];
+    for (lo, hi) in a.iv.iter().chain(b.iv.iter()).take(8) {
+        for p in [*lo, *hi, lo.wrapping_sub(1), hi.wrapping_add(1), lo / 2 + hi / 2] {
+            if p <= max {
+                pts.push(p);
+            }
+        }
+    }
+    pts.sort();
+    pts.dedup();
+    pts
+}
+
+fn as_unary(ctx: &mut Ctx, c: &AsCase) {
+    let fl = Flavour::As;
+    let blocks = &c.blocks;
+    let d = || json!({"blocks": blocks_json(blocks)});
+    // text round trip
+    if let Some(text) = ctx.no_panic("as:display", d, || c.set.to_string()) {
+        ctx.eval();
+        match AsBlocks::from_str(&text) {
+            Ok(back) => {
+                if back != c.set || observe_as(&back) != observe_as(&c.set) {
+                    ctx.violation("C03:as:text-roundtrip:differs", "Display output parses back to a different set", json!({"text": text, "blocks": blocks_json(blocks)}));
+                }
+            }
+            Err(e) => ctx.violation("C03:as:text-roundtrip:rejected", "Display output of a set is rejected by FromStr", json!({"text": text, "error": e.to_string()})),
+        }
+    }
+    // serde round trip
+    if let Some(Ok(js)) = ctx.no_panic("as:serde-ser", d, || serde_json::to_string(&c.set)) {
+        ctx.eval();
+        match serde_json::from_str::<AsBlocks>(&js) {
+            Ok(back) => {
+                if back != c.set {
+                    ctx.violation("C03:as:serde-roundtrip:differs", "serde form parses back to a different set", json!({"json": js}));
+                }
+            }
+            Err(e) => ctx.violation("C03:as:serde-roundtrip:rejected", "serde form of a set is rejected", json!({"json": js, "error": e.to_string()})),
+        }
+    }
+    // DER: library encoder read by the independent reader, and decoded back
+    let res = AsResources::blocks(c.set.clone());
+    if let Some(cap) = ctx.no_panic("as:encode", d, || res.encode_ref().to_captured(Mode::Der)) {
+        ctx.eval();
+        let bytes = cap.as_slice().to_vec();
+        // SEQUENCE { [0] { SEQUENCE OF ... } }
+        let inner = der::parse(&bytes).and_then(|root| root.path(&[0, 0]).map(|n| n.whole(&bytes).to_vec()));
+        match inner.as_deref().and_then(as_der_read) {
+            Some(read) => {
+                let m = fl.model(&read);
+                if m != c.model || read.iter().any(|(a, b)| a > b) {
+                    ctx.violation("C03:as:der-encode:wrong-set", "the DER encoding of a set denotes a different set", json!({"der": crate::core::hex(&bytes), "blocks": blocks_json(blocks)}));
+                }
+            }
+            None => {
+                if !c.model.is_empty() {
+                    ctx.violation("C03:as:der-encode:unreadable", "the DER encoding of a set is not a SEQUENCE OF ASIdOrRange", json!({"der": crate::core::hex(&bytes)}));
+                }
+            }
+        }
+        match Mode::Der.decode(bytes.as_slice().into_source(), AsResources::take_from) {
+            Ok(back) => {
+                let back = back.to_blocks().unwrap_or_default();
+                if back != c.set {
+                    ctx.violation("C03:as:der-roundtrip:differs", "decoding the DER encoding of a set gives a different set", json!({"der": crate::core::hex(&bytes)}));
+                }
+            }
+            Err(e) => ctx.violation("C03:as:der-roundtrip:rejected", "the DER encoding of a set is rejected by the decoder", json!({"der": crate::core::hex(&bytes), "error": e.to_string()})),
+        }
+    }
+    // counts
+    if let Some(n) = c.model.count() {
+        if n <= u32::MAX as u128 {
+            if let Some(got) = ctx.no_panic("as:asn_count", d, || c.set.asn_count()) {
+                ctx.eval();
+                if got as u128 != n {
+                    ctx.violation("C03:as:asn_count:wrong", "asn_count differs from the number of elements", json!({"blocks": blocks_json(blocks), "got": got, "want": n.to_string()}));
+                }
+            }
+            if n <= 3000 {
+                if let Some(list) = ctx.no_panic("as:iter_asns", d, || c.set.iter_asns().map(|a| a.into_u32() as u128).collect::<Vec<_>>()) {
+                    ctx.eval();
+                    let mut want = Vec::new();
+                    for (lo, hi) in &c.model.iv {
+                        let mut x = *lo;
+                        loop {
+                            want.push(x);
+                            if x == *hi {
+                                break;
+                            }
+                            x += 1;
+                        }
+                    }
+                    if list != want {
+                        ctx.violation("C03:as:iter_asns:wrong", "iter_asns does not enumerate exactly the members in order", json!({"blocks": blocks_json(blocks), "got_len": list.len(), "want_len": want.len()}));
+                    }
+                }
+            }
+        } else {
+            // not representable: only panic-freedom of the call is required elsewhere (C04)
+            ctx.obs("as_count_not_representable", 1);
+        }
+    }
+    ctx.drain_chain_hook(|| json!({"flavour": "as", "unary-on": blocks_json(blocks)}));
+}
+
+fn as_pair(ctx: &mut Ctx, a: &AsCase, b: &AsCase) {
+    let fl = Flavour::As;
+    let rel = relation(&a.model, &b.model);
+    if rel != "both-empty" {
+        ctx.sig(&format!("as pair {} {}x{}", rel, size_class(&a.model), size_class(&b.model)));
+    }
+    let d = || json!({"a": blocks_json(&a.blocks), "b": blocks_json(&b.blocks)});
+    if let Some(s) = ctx.no_panic("as:union", d, || a.set.union(&b.set)) {
+        check_set(ctx, fl, "union", &observe_as(&s), &a.model.union(&b.model), d);
+    }
+    let inter = a.model.intersection(&b.model);
+    if let Some(s) = ctx.no_panic("as:intersection", d, || a.set.intersection(&b.set)) {
+        check_set(ctx, fl, "intersection", &observe_as(&s), &inter, d);
+    }
+    if let Some(s) = ctx.no_panic("as:intersection_assign", d, || { let mut x = a.set.clone(); x.intersection_assign(&b.set); x }) {
+        check_set(ctx, fl, "intersection_assign", &observe_as(&s), &inter, d);
+    }
+    if let Some(s) = ctx.no_panic("as:difference", d, || a.set.difference(&b.set)) {
+        check_set(ctx, fl, "difference", &observe_as(&s), &a.model.difference(&b.model), d);
+    }
+    if let Some(g) = ctx.no_panic("as:contains", d, || a.set.contains(&b.set)) {
+        check_bool(ctx, fl, "contains", g, b.model.is_subset_of(&a.model), d);
+    }
+    if let Some(g) = ctx.no_panic("as:eq", d, || a.set == b.set) {
+        check_bool(ctx, fl, "eq", g, a.model == b.model, d);
+    }
+    for p in sample_points(&a.model, &b.model, fl.max()) {
+        if let Some(g) = ctx.no_panic("as:contains_asn", d, || a.set.contains_asn(asn(p))) {
+            check_bool(ctx, fl, "contains_asn", g, a.model.contains(p), || json!({"a": blocks_json(&a.blocks), "asn": p.to_string()}));
+        }
+    }
+    // issuance: issuer = a, claimed = b
+    let claimed = AsResources::blocks(b.set.clone());
+    if let Some(r) = ctx.no_panic("as:verify_issued-refuse", d, || a.set.verify_issued(&claimed, Overclaim::Refuse)) {
+        ctx.eval();
+        let covered = b.model.is_subset_of(&a.model);
+        match r {
+            Ok(s) => {
+                if !covered {
+                    ctx.violation("C03:as:verify_issued-refuse:accepts-overclaim", "no-overclaim issuance accepted a claim outside the issuer", d());
+                } else {
+                    check_set(ctx, fl, "verify_issued-refuse", &observe_as(&s), &b.model, d);
+                }
+            }
+            Err(_) => {
+                if covered {
+                    ctx.violation("C03:as:verify_issued-refuse:rejects-covered", "no-overclaim issuance rejected a claim inside the issuer", d());
+                }
+            }
+        }
+    }
+    if let Some(r) = ctx.no_panic("as:verify_issued-trim", d, || a.set.verify_issued(&claimed, Overclaim::Trim)) {
+        ctx.eval();
+        match r {
+            Ok(s) => {
+                check_set(ctx, fl, "verify_issued-trim", &observe_as(&s), &inter, d);
+            }
+            Err(_) => ctx.violation("C03:as:verify_issued-trim:rejects", "trimming issuance returned an error", d()),
+        }
+    }
+    if let Some(Ok(s)) = ctx.no_panic("as:verify_issued-inherit", d, || a.set.verify_issued(&AsResources::inherit(), Overclaim::Refuse)) {
+        check_set(ctx, fl, "verify_issued-inherit", &observe_as(&s), &a.model, d);
+    }
+    if let Some(Ok(s)) = ctx.no_panic("as:verify_issued-missing", d, || a.set.verify_issued(&AsResources::missing(), Overclaim::Trim)) {
+        check_set(ctx, fl, "verify_issued-missing", &observe_as(&s), &IntervalSet::empty(), d);
+    }
+    // bottom-up: self = b covered by issuer resources a
+    let issuer = AsResources::blocks(a.set.clone());
+    if let Some(r) = ctx.no_panic("as:verify_covered", d, || b.set.verify_covered(&issuer)) {
+        check_bool(ctx, fl, "verify_covered", r.is_ok(), b.model.is_subset_of(&a.model), d);
+    }
+    ctx.drain_chain_hook(|| json!({"flavour": "as", "pair": d()}));
+}
+
+fn run_as(ctx: &mut Ctx) {
+    let mut rng = ctx.rng("as");
+    let batches = ctx.stage_budget((12_000, 400_000), 2_000, 3, 0);
+    let batch = if ctx.stage == Stage::Miri { 3 } else { 14 };
+    for _ in 0..batches {
+        let mut cases = Vec::new();
+        for _ in 0..batch {
+            let seq = sequence(Flavour::As, &mut rng, 8);
+            if let Some(c) = as_construct(ctx, &mut rng, &seq) {
+                if ctx.wants_sample("as-set") {
+                    let obs = observe_as(&c.set);
+                    ctx.sample("as-set", || json!({"input_blocks": blocks_json(&seq.blocks), "shape": seq.shape, "observed": obs_json(&obs)}));
+                }
+                cases.push(c);
+            }
+        }
+        for c in &cases {
+            as_unary(ctx, c);
+        }
+        for a in &cases {
+            for b in &cases {
+                as_pair(ctx, a, b);
+            }
+        }
+        as_reversed(ctx, &mut rng);
+    }
+    // special constants
+    let all = AsBlocks::all();
+    check_set(ctx, Flavour::As, "all", &observe_as(&all), &IntervalSet::from_ranges(&[(0, u32::MAX as u128)]), || json!("AsBlocks::all()"));
+    check_set(ctx, Flavour::As, "empty", &observe_as(&AsBlocks::empty()), &IntervalSet::empty(), || json!("AsBlocks::empty()"));
+}
+
+/// Exhaustive: every sequence of up to `maxlen` blocks over a 7-value pool,
+/// collection + canonical form + denotation (AS flavour and IPv6 flavour).
+fn run_small_exhaustive(ctx: &mut Ctx) {
+    let maxlen = match (ctx.tier, ctx.stage) {
+        (Tier::Thorough, Stage::Native) => 4,
+        (_, Stage::Native) => 3,
+        (_, Stage::Asan) => 3,
+        _ => 1,
+    };
+    for fl in [Flavour::As, Flavour::V6] {
+        let max = fl.max();
+        let pool: Vec<u128> = vec![0, 1, 2, 3, 4, max - 1, max];
+        for len in 0..=maxlen {
+            let total = small_sequence_count(&pool, len);
+            let mut idx = ctx.shard;
+            while idx < total {
+                let blocks = small_sequence(fl, &pool, len, idx).unwrap();
+                let model = fl.model(&blocks);
+                match fl {
+                    Flavour::As => {
+                        let items: Vec<AsBlock> = blocks.iter().map(|(a, b)| AsBlock::from((asn(*a), asn(*b)))).collect();
+                        if let Some(s) = ctx.no_panic("as:from_iter", || blocks_json(&blocks), || AsBlocks::from_iter(items)) {
+                            check_set(ctx, fl, "from_iter", &observe_as(&s), &model, || json!({"constructor": "from_iter", "blocks": blocks_json(&blocks)}));
+                        }
+                    }
+                    _ => crate::c03_ip::small_collect(ctx, fl, &blocks, &model),
+                }
+                idx += ctx.nshards;
+            }
+            ctx.disjoint_distinct += 0;
+        }
+        ctx.sig(&format!("{} exhaustive small sequences up to {} blocks", fl.name(), maxlen));
+        ctx.drain_chain_hook(|| json!({"flavour": fl.name(), "phase": "small-exhaustive"}));
+    }
+    ctx.notes.push(format!("exhaustive sub-space: all sequences of <= {} blocks over endpoints {{0,1,2,3,4,MAX-1,MAX}} for AS and IPv6 collection", maxlen));
+}
 
 pub fn run(ctx: &mut Ctx) {
-    ctx.notes.push("C03: monitor not built yet".into());
+    run_small_exhaustive(ctx);
+    run_as(ctx);
+    crate::c03_ip::run_ip(ctx);
 }
